@@ -2,11 +2,11 @@
 # tools/batch.sh "<seeds>" [extra eng_seq args] : run eng_seq + TLC validation per seed, print violation counters
 seeds="$1"; shift
 for s in $seeds; do
-  /verif/harness/target/debug/eng_seq --seed $s --runs 150 --steps 40 --out /tmp/t$s.ndjson "$@" 2>/dev/null
-  (cd /verif/specs && TRACE=/tmp/t$s.ndjson OUT=/tmp/out$s.json JAVA_TOOL_OPTIONS="-Xss1g" timeout 600 tlc -workers 1 -metadir /tmp/tlcwork$s -cleanup -noGenerateSpecTE -config EngineObsTrace.cfg EngineObsTrace.tla > /tmp/tlc$s.log 2>&1 || tail -20 /tmp/tlc$s.log)
+  /verif/harness/target/debug/eng_seq --seed $s --runs 150 --steps 40 --out /tmp/lag/t$s.ndjson "$@" 2>/dev/null
+  (cd /verif/specs && TRACE=/tmp/lag/t$s.ndjson OUT=/tmp/lag/out$s.json JAVA_TOOL_OPTIONS="-Xss1g" timeout 600 tlc -workers 1 -metadir /tmp/lag/tlcwork$s -cleanup -noGenerateSpecTE -config EngineObsTrace.cfg EngineObsTrace.tla > /tmp/lag/tlc$s.log 2>&1 || tail -20 /tmp/lag/tlc$s.log)
   python3 -c "
 import json,collections
-o=json.load(open('/tmp/out$s.json'))
+o=json.load(open('/tmp/lag/out$s.json'))
 print($s, o['events'], dict(collections.Counter((v['kind'],v['kf']) for v in o['viol'])))
 "
 done
